@@ -6,6 +6,6 @@ cd /repo
 git apply --check "$f"
 git apply "$f"
 /venv/bin/python -m pytest -q -p no:cacheprovider 2>&1 | tail -1 | grep -q "221 passed" || { echo "TESTS CHANGED"; git checkout -- .; exit 1; }
-msg=$(awk '/^---$/{exit} /^Apply with:/{next} {print}' "$f")
+msg=$(awk '/^---$/{exit} /^--- a\//{exit} /^diff --git/{exit} /^Apply with:/{next} {print}' "$f")
 git commit -qam "$msg"
 git log --oneline | head -1
